@@ -219,6 +219,11 @@ def run(ctx):
 
     d7(ctx, db, rep)
 
+    # D8: a loaded parameter is shared between instructions only if it was loaded the same way (shared with C02 D6; the
+    # generated C reads the shared temporary lane-wise, so a wrong share shows up here even where emulation agrees)
+    import importlib
+    importlib.import_module("rules.c02").d6_reuse_key(db, rep, "D8-REUSE-KEY")
+
     if ctx.tier == "thorough":
         d5(ctx, rep)
 
